@@ -58,6 +58,15 @@ fn tree_strat(ctx: &Ctx) -> BoxedStrategy<TreeCase> {
     let huge = ctx.tier == Tier::Thorough;
     // 2^24-byte payloads cost ~100 ms per case: keep them to shallow trees in 1 of 400 thorough cases
     let tree = if huge { prop_oneof![399 => gens::gt_tree(6, 6, true, false), 1 => gens::gt_tree(2, 3, true, true)].boxed() } else { gens::gt_tree(6, 6, true, false) };
+    // now and then a very wide node: 100-400 small children (possibly below a few levels of nesting)
+    let wide = (gens::class_tag(), vec((gens::class_tag(), gens::data(false, false)).prop_map(|((class, tag), data)| gens::GT::P { class, tag, data }), 100..400), 0usize..4).prop_map(|((class, tag), kids, wrap)| {
+        let mut t = gens::GT::C { class, tag, kids };
+        for _ in 0..wrap {
+            t = gens::GT::C { class: 0, tag: 16, kids: vec![t] };
+        }
+        t
+    });
+    let tree = prop_oneof![40 => tree, 1 => wide.boxed()];
     (tree, vec(any::<u8>(), 0..6)).prop_map(|(tree, trailer)| TreeCase { tree, trailer }).boxed()
 }
 
@@ -396,7 +405,7 @@ pub fn property() -> Property {
     Property {
         id: "C07",
         level: "exploration",
-        rule: "lanes: tree (generated tag trees, payload lengths biased to 0/1/127/128/255/256/65535/65536 and (thorough) 2^24 -> lber encode vs reference minimal encoding, parse(encode)+trailer); ints (i64 biased to +-2^k+-2 for every k, MIN/MAX; Integer/Enumerated content vs independently computed shortest two's complement); typed (Tag::into_structure for Boolean/Null/OctetString/Sequence/Set/ExplicitTag trees); forms (harness-written valid BER with generated long/superfluous length forms -> lber parse vs tree); bytes (mutated/random bytes: differential against the reference reader on inputs it calls valid). Non-trivial: tree with a constructed node of >=2 children or any length >=128; integer with >=2 content octets or negative; typed tree using >=3 kinds; encoding that used >=1 non-minimal length; byte string the reference accepts. Distinct = hash of tree shape (class,tag,length per node) / value / bytes.",
+        rule: "lanes: tree (generated tag trees - depth <= 6, up to 6 children per node, and now and then a node with 100-400 children -, payload lengths biased to 0/1/127/128/255/256/65535/65536 and (thorough) 2^24 -> lber encode vs reference minimal encoding, parse(encode)+trailer); ints (i64 biased to +-2^k+-2 for every k, MIN/MAX; Integer/Enumerated content vs independently computed shortest two's complement); typed (Tag::into_structure for Boolean/Null/OctetString/Sequence/Set/ExplicitTag trees); forms (harness-written valid BER with generated long/superfluous length forms -> lber parse vs tree); bytes (mutated/random bytes: differential against the reference reader on inputs it calls valid). Non-trivial: tree with a constructed node of >=2 children or any length >=128; integer with >=2 content octets or negative; typed tree using >=3 kinds; encoding that used >=1 non-minimal length; byte string the reference accepts. Distinct = hash of tree shape (class,tag,length per node) / value / bytes.",
         assumptions: &[
             "harness BER reader/writer (src/ber.rs) is correct; cross-checked against lber's own test vectors and self-round-trip",
             "tag numbers are limited to 0..30 as the property states",
